@@ -230,7 +230,23 @@ Section Generic.
         cbn [e_t e_src e_st]. split; [reflexivity|]. split; [|exact Hc].
         rewrite cur_add_ev. unfold s1. rewrite Hp. apply commit_some.
       + split; [exact Hin1|]. split; [exact Hoth1|]. left. unfold s1. apply commit_pending.
-    - destruct (ab && p_abandons p).
+    - destruct (ab && p_abandons p && p_abandon_direct p).
+      { destruct (hit (f_put (c_f k)) (r_np r1)).
+        - injection H as <- <- _ _. split; [exact P1|]. split; [exact Hin1|]. split; [exact Hoth1|].
+          left. unfold s1. apply commit_pending.
+        - injection H as <- <- _ Hf. rewrite Hfat in Hf.
+          assert (Hl : terminal p (last (cur p s t :: r_ann r1) (cur p s t)) = false).
+          { destruct (r_ann r1) as [|a l] eqn:Ea.
+            - exact Hnt.
+            - change (last (cur p s t :: a :: l) (cur p s t)) with (last (a :: l) (cur p s t)).
+              destruct skip.
+              + subst r1. unfold cfail in Ea. cbn in Ea. discriminate.
+              + cbn [negb andb] in Hf. exact Hf. }
+          split; [apply is_path_app; [exact P1|]; rewrite is_path_cons; rewrite (abandon_sedge _ Hl); reflexivity|].
+          split; [cbn [commit]; rewrite cur_set_same; right; apply in_or_app; right; left; reflexivity|].
+          split; [intros t' Ht; cbn [commit]; rewrite cur_set_other by exact Ht; apply Hoth1; exact Ht|].
+          left. cbn [commit set pending]. unfold s1. apply commit_pending. }
+      destruct (ab && p_abandons p).
       + injection H as <- <- _ Hf. rewrite Hfat in Hf.
         destruct (run_spec k (p_abandon p) (r_tape r1) (r_np r1) (r_ix r1)) as [G1 [G2 _]].
         set (r2 := run_chain p k (p_abandon p) (r_tape r1) (r_np r1) (r_ix r1)) in *.
@@ -617,7 +633,11 @@ Section Generic.
     set (r1 := if skip then _ else _).
     destruct (r_ok r1).
     - cbn [fst]. destruct (r_halt r1); [rewrite cur_add_ev|]; apply commit_other; exact Ht.
-    - destruct (ab && p_abandons p); cbn [fst].
+    - destruct (ab && p_abandons p && p_abandon_direct p).
+      { destruct (hit _ _); cbn [fst].
+        - apply commit_other. exact Ht.
+        - cbn [commit]. rewrite cur_set_other by exact Ht. apply commit_other. exact Ht. }
+      destruct (ab && p_abandons p); cbn [fst].
       + rewrite commit_other by exact Ht. apply commit_other. exact Ht.
       + apply commit_other. exact Ht.
   Qed.
@@ -739,7 +759,11 @@ Proof.
   destruct (r_ok r1).
   - cbn [fst]. destruct (r_halt r1); [unfold add_ev, cur; cbn [persisted]; fold (cur p (commit s t (r_pers r1)) t')|];
       apply commit_other_gen; exact Ht.
-  - destruct (ab && p_abandons p); cbn [fst].
+  - destruct (ab && p_abandons p && p_abandon_direct p).
+    { destruct (hit _ _); cbn [fst].
+      - apply commit_other_gen. exact Ht.
+      - cbn [commit]. rewrite cur_set_other_gen by exact Ht. apply commit_other_gen. exact Ht. }
+    destruct (ab && p_abandons p); cbn [fst].
     + rewrite commit_other_gen by exact Ht. apply commit_other_gen. exact Ht.
     + apply commit_other_gen. exact Ht.
 Qed.
